@@ -11,7 +11,7 @@ THEOREMS = {
                             "gate_fires", "hold_fires", "updates_fires", "updates_hold_fires", "once_fires", "once_done_silent", "once_done_step",
                             "once_fires_at_most_once", "once_not_twice"]]
            + ["SodiumVerif.Sched.transaction_glitch_free", "SodiumVerif.Bridge.sched_refines_spec", "SodiumVerif.Bridge.sched_refines_spec_static",
-              "SodiumVerif.Bridge.sched_computes_fireTable"],
+              "SodiumVerif.Bridge.sched_computes_fireTable", "SodiumVerif.Bridge.sched_refines_spec_history"],
     "C04": [S + n for n in ["val_stepTxn_hold", "hold_updated", "hold_unchanged", "hold_initial", "val_stepTxn_csink", "accum_fires", "val_stepTxn_accum",
                             "accum_is_foldl", "accum_is_foldl_fresh", "collect_fires", "val_stepTxn_collect", "collect_state_is_foldl", "collect_output", "cell_next_value"]],
     "C05": [S + n for n in ["switchs_fires", "switchs_ignores_selector_update", "switchc_fires_on_switch", "switchc_value", "lift_inv_switchc"]],
@@ -21,11 +21,13 @@ THEOREMS = {
                             "bufinv_newNode", "bufinv_incRef", "bufinv_decRef_handle", "bufinv_addEdge", "bufinv_delEdge", "bufinv_upgradeDrop", "bufinv_collectCycles",
                             "onePass_frees_garbage", "collectCycles_terminates", "onePass_progress", "collect_dtor_once"]]
            + ["SodiumVerif.GcScript." + n for n in ["script_complete", "handles_exact", "no_garbage_after_collect", "drop_all_collect_frees_all"]],
-    "C09": [S + "solution_extends", S + "fireTable_least", S + "gc_transparent", "SodiumVerif.Sched.transaction_result_unique", "SodiumVerif.Sched.sched_result_unique",
+    "C09": [S + "fireTable_unique", S + "fire_rename'", S + "fireOf_rename'", S + "val_rename'", S + "val_run_rename'", S + "fireTrace_rename'", S + "WellRanked.rename'",
+            S + "solution_extends", S + "fireTable_least", S + "gc_transparent", "SodiumVerif.Sched.transaction_result_unique", "SodiumVerif.Sched.sched_result_unique",
             G + "collect_sound_total"],
     "C10": [S + n for n in ["listenerOutputs_eq", "unlisten_stops", "unlisten_deactivates", "listen_stream", "listen_cell_initial", "listen_cell_later",
                             "strong_listener_survives_drop", "stmt_unlisten"]],
-    "C11": [S + n for n in ["sloop_fires", "cloop_fires'", "sloop_unclosed_silent", "cloop_value", "double_loop_panics", "sample_before_loop_panics", "stmt_sloopclose", "stmt_sample"]],
+    "C11": [S + n for n in ["fire_substLoop", "fireTrace_substLoop", "val_run_substLoop", "stepTxn_substLoop", "fire_substCLoop", "fireTrace_substCLoop_wf",
+                            "val_run_substCLoop_wf", "sloop_fires", "cloop_fires'", "sloop_unclosed_silent", "cloop_value", "double_loop_panics", "sample_before_loop_panics", "stmt_sloopclose", "stmt_sample"]],
     "C12": [T + n for n in ["log_of_close", "log_of_close_flat", "prePost_before_post", "commit_before_deferred", "commit_precedes_deferred", "deferred_own_transaction",
                             "deferred_fifo", "post_immediate_when_idle", "phases_match", "hold_commit_queue", "once_detach_queue", "send_clear_queue", "defer_queue",
                             "public_post_opens_transaction"]],
@@ -40,14 +42,14 @@ THEOREMS = {
 }
 MODULES = {
     "C01": ["SodiumVerif.Props.C01", "SodiumVerif.Props.C14", "SodiumVerif.Props.C10"],
-    "C02": ["SodiumVerif.Props.C02", "SodiumVerif.Props.C03", "SodiumVerif.Props.Refine"],
+    "C02": ["SodiumVerif.Props.C02", "SodiumVerif.Props.C03", "SodiumVerif.Props.Refine", "SodiumVerif.Props.RefineHist"],
     "C04": ["SodiumVerif.Props.C04", "SodiumVerif.Props.C13"],
     "C05": ["SodiumVerif.Props.C05"],
     "C06": ["SodiumVerif.Props.C06"],
     "C07": ["SodiumVerif.Props.C07", "SodiumVerif.Props.C06"],
-    "C09": ["SodiumVerif.Props.C09", "SodiumVerif.Props.C06"],
+    "C09": ["SodiumVerif.Props.C09", "SodiumVerif.Props.C09b", "SodiumVerif.Props.C06"],
     "C10": ["SodiumVerif.Props.C10"],
-    "C11": ["SodiumVerif.Props.C11"],
+    "C11": ["SodiumVerif.Props.C11", "SodiumVerif.Props.C11b"],
     "C12": ["SodiumVerif.Props.C12"],
     "C13": ["SodiumVerif.Props.C13"],
     "C14": ["SodiumVerif.Props.C14"],
